@@ -13,6 +13,9 @@ for d in sorted(os.listdir(os.path.join(VERIF, "seeded"))):
     if only not in d:
         continue
     meta = json.load(open(os.path.join(VERIF, "seeded", d, "meta.json")))
+    if meta.get("obsolete"):
+        print(f"skip {d:<10} (obsolete: {meta['needs_to_manifest'][-90:]})", flush=True)
+        continue
     pid = meta["breaks_property"]
     assert subprocess.run(["git", "-C", "/repo", "status", "--porcelain", "--untracked-files=no"], capture_output=True, text=True).stdout.strip() == ""
     try:
